@@ -177,6 +177,31 @@ def inject(inp, ftype, cls, cpos, ipos, rng):
         it[0], it[1] = 0, (0 if ftype == 0 else 1)
     return x, cls
 
+def decodes(b):
+    try:
+        b.decode("utf-8"); return True
+    except UnicodeDecodeError:
+        return False
+
+# kinds of lines that are not (or, for the last one, are) well-formed UTF-8
+NOT_TEXT = ["fffe-field", "truncated-eol", "truncated-4", "overlong", "surrogate", "above-max", "stray-cont", "bad-chrom",
+            "overlap-before", "valid-multibyte"]
+def not_text_line(kind, line, ftype):
+    f = line.split(b"\t")
+    if kind == "fffe-field":            # bedGraph: the value field; BED: the rest (name) field
+        if ftype == 0: f[3] = b"\xff\xfe"
+        else: f = f[:3] + [b"na\xff\xfeme"] + f[4:]
+        return b"\t".join(f)
+    if kind == "bad-chrom":
+        return b"\xff" + line
+    if kind == "valid-multibyte":       # accepted: a further column holding U+00E9 U+20AC U+1F600 U+10FFFF U+D7FF U+E000
+        return line + b"\t" + "\u00e9\u20ac\U0001f600\U0010ffff\ud7ff\ue000".encode("utf-8")
+    tail = {"truncated-eol": b"x\xe2\x82", "truncated-4": b"\xf0\x9f\x98", "overlong": b"\xc0\xaf!", "surrogate": b"a\xed\xa0\x80b",
+            "above-max": b"\xf4\x90\x80\x80", "stray-cont": b"q\x80", "overlap-before": b"\xc3"}[kind]
+    # a further column (bedGraph: columns after the value are ignored; BED: the rest is kept verbatim), so the
+    # byte-level parser has nothing to object to
+    return line + b"\t" + tail
+
 CLASSES = ["within", "start>end", "beyond", "unknown", "malformed", "chrom-order", "chrom-repeat"]
 
 def mk_case(ftype, path, passes, o, sizes, text, threads):
@@ -192,12 +217,13 @@ class C13(Prop):
             "injected at first/middle/last item of first/middle/last chromosome; x serial source, parallel source (run offsets), parallel "
             "source (real index_chroms) x single/two pass x runtime threads {0,1,2,4}; plus valid texts incl. CRLF, no final newline, "
             "trailing blanks, '+5', leading zeros, very long lines, zero-length-only items, manual zooms [0,10] [10,10] [0] []; plus empty "
-            "input, a byte-mutation stream, option sets outside the guards; non-trivial = at least 2 lines; distinct = distinct case text")
+            "input, a byte-mutation stream (incl. texts that are no longer UTF-8), lines that are not well-formed UTF-8 (FF FE in a field, truncated / overlong / surrogate / "
+            "too large sequences, at first/middle/last line: must be refused), option sets outside the guards; non-trivial = at least 2 lines; distinct = distinct case text")
     CORRESPONDENCE = ("verdict and error class of BigWigWrite/BigBedWrite::write / write_multipass on the text = Model/Accept.v "
                       "(serial: exact class; parallel with run offsets: exact class; parallel through index_chroms: verdict)")
     TRUSTED = ["harness/src/bin/c13.rs linear_index (run offsets handed to the parallel source)",
                "Entry_C13.f32_token_ok stands for str::parse::<f32> (syntax only)"]
-    ASSUMPTIONS = ["input text is valid UTF-8 and uses only ASCII white space (str::trim_end's Unicode classes are not modelled)",
+    ASSUMPTIONS = ["input text uses only ASCII white space (str::trim_end's Unicode classes are not modelled); text that is not UTF-8 IS modelled (Model/Utf8.v)",
                    "coordinates and sizes fit u32 in the size table", "f32 parsing is a parameter of the model"]
 
     # ------------------------------------------------------------------ generation
@@ -317,14 +343,36 @@ class C13(Prop):
                 elif op == "cut": t = t[:i]
                 else:
                     ls = bytes(t).split(b"\n"); j = rng.randrange(len(ls)); ls.insert(j, ls[j]); t = bytearray(b"\n".join(ls))
-            try:
-                bytes(t).decode("utf-8")
-            except UnicodeDecodeError:
-                continue
+            # a text that does not decode is IN the model since round 5 (Model/Utf8.v: read_line fails, class 50);
+            # still outside: Unicode white space (str::trim_end), which this alphabet cannot produce anyway
             if any(b in bytes(t) for b in (b"\xc2\x85", b"\xc2\xa0")):
                 continue
+            u = "utf8" if decodes(bytes(t)) else "not-utf8"
             for (p, ps, th) in self.configs(rng, tier, False):
-                yield mk_case(ftype, p, ps, o, sizes, bytes(t), th), ["mutated-text", "ft=%d" % ftype, "path=%d" % p, "pass=%d" % (ps + 1)]
+                yield mk_case(ftype, p, ps, o, sizes, bytes(t), th), ["mutated-text", "mutated:" + u, "ft=%d" % ftype, "path=%d" % p, "pass=%d" % (ps + 1)]
+        # 4b. lines that are not text: read_line fails on the whole line (class 50); the lines before it are processed
+        # first.  Such a text must be refused wherever the line stands (never accepted with the input cut short).
+        for ftype in (0, 1):
+            for b in range(1 if tier == "quick" else 6):
+                sa = 1 if b % 2 == 0 else 0
+                base = base_input(rng, ftype, 3, [3, 4])
+                o, zm = options(rng, sort_all=sa)
+                sizes = sizes_of(base, rng)
+                lines = render(base, ftype, rng, "plain").split(b"\n")[:-1]
+                for kind in NOT_TEXT:
+                    for where in POS3:
+                        j = pick(len(lines), where)
+                        ls = list(lines)
+                        ls[j] = not_text_line(kind, ls[j], ftype)
+                        if kind == "overlap-before":
+                            if j == 0:
+                                continue
+                            ls.insert(j, ls[j - 1])         # the line before it twice: overlap (bigWig) resp. fine (bigBed)
+                        style = rng.choice(["plain", "plain", "crlf", "nofinal"])
+                        text = {"plain": b"\n".join(ls) + b"\n", "crlf": b"\r\n".join(ls) + b"\r\n", "nofinal": b"\n".join(ls)}[style]
+                        for (p, ps, th) in self.configs(rng, tier, True):
+                            yield mk_case(ftype, p, ps, o, sizes, text, th), \
+                                ["not-text:" + kind, "line:" + where, "style=" + style, "ft=%d" % ftype, "path=%d" % p, "pass=%d" % (ps + 1), "sort_all=%d" % sa]
         # 5. option sets outside the guards
         for ftype in (0, 1):
             v = "\t1.5" if ftype == 0 else ""
@@ -348,6 +396,11 @@ class C13(Prop):
         # through the real index_chroms the class may be the indexer's (51) or another offending item's
         c = parse_sx(case)
         if c[1] == 2:
+            return impl_out.strip()[:2] == model_out.strip()[:2] and impl_out.strip()[1] in "01"
+        # path 1: the run offsets and NAMES come from the harness (linear_index decodes lossily: U+FFFD); when the first
+        # field of a line is not UTF-8 the name handed to the source is not the model's, so order / size lookup may
+        # answer first with another class: verdict only
+        if c[1] == 1 and any(not decodes(l.split(b"\t")[0]) for l in bytes(c[5]).split(b"\n")):
             return impl_out.strip()[:2] == model_out.strip()[:2] and impl_out.strip()[1] in "01"
         return False
 
